@@ -10,10 +10,10 @@
 #include <stdarg.h>
 #include "hcommon.h"
 
-enum { PG_SPAWN, PG_ATTR, PG_DETACH, PG_MUTEX_STATIC, PG_COND, PG_BARRIER, PG_SPIN, PG_ONCE, PG_KEYS, PG_SELF, PG_EXIT, PG_MIX, PG_N };
+enum { PG_SPAWN, PG_ATTR, PG_DETACH, PG_MUTEX_STATIC, PG_COND, PG_BARRIER, PG_SPIN, PG_ONCE, PG_KEYS, PG_SELF, PG_EXIT, PG_MIX, PG_KEYS_ALL, PG_N };
 static const char * const pg_name[] = { "spawn tree (NULL attr)", "spawn with attribute objects (default-init, stack size)", "detached threads (attribute and pthread_detach)",
   "counter under a PTHREAD_MUTEX_INITIALIZER mutex first used by all threads at once", "condition-variable hand-off (static initialisers)", "barrier phases",
-  "spin-lock counter", "pthread_once", "keys with destructors", "pthread_self / pthread_equal", "pthread_exit from nested frames", "mixed: keys + mutex + yield + usleep(0)" };
+  "spin-lock counter", "pthread_once", "keys with destructors", "pthread_self / pthread_equal", "pthread_exit from nested frames", "mixed: keys + mutex + yield + usleep(0)", "keys with destructors, every thread stores a value under every key" };
 typedef struct { int pg, n, W, K; } prog_t;
 #define MAXP 200
 static prog_t P[2][MAXP]; static int NP[2];
@@ -55,11 +55,12 @@ static void * t_barrier(void * a) {
 static void * t_spin(void * a) { (void)a; for (int k = 0; k < 2; k++) { pthread_spin_lock(&spin); long c = counter; counter = c + 1; pthread_spin_unlock(&spin); sched_yield(); } return 0; }
 static void once_fn(void) { once_runs++; sched_yield(); }
 static void * t_once(void * a) { (void)a; pthread_once(&once, once_fn); return (void *)once_runs; }
+static int keys_all;
 static void dtor(void * v) { pthread_mutex_lock(&smtx); dtor_sum += (long)v; dtor_calls++; pthread_mutex_unlock(&smtx); }
 static void * t_keys(void * a) {
   long me = (long)a;
   if (pthread_getspecific(key1) != NULL) return (void *)-1L;
-  pthread_setspecific(key1, (void *)(100 + me)); if (me & 1) pthread_setspecific(key2, (void *)(1000 + me));
+  pthread_setspecific(key1, (void *)(100 + me)); if ((me & 1) || keys_all) pthread_setspecific(key2, (void *)(1000 + me));
   sched_yield();
   return (void *)((long)pthread_getspecific(key1) + (long)pthread_getspecific(key2));
 }
@@ -90,6 +91,7 @@ static void program(int pg, int n, char * log, size_t logn) {
     for (int i = 0; i < n; i++) { pthread_join(th[i], &r); if ((long)r < 0) logf_("bad%d=%ld;", i, (long)r); else serial += (long)r; } logf_("serial_total=%ld;", serial); pthread_barrier_destroy(&bar); break; }
   case PG_SPIN: pthread_spin_init(&spin, PTHREAD_PROCESS_PRIVATE); for (long i = 0; i < n; i++) pthread_create(&th[i], NULL, t_spin, 0); for (int i = 0; i < n; i++) pthread_join(th[i], 0); logf_("counter=%ld;", counter); pthread_spin_destroy(&spin); break;
   case PG_ONCE: for (long i = 0; i < n; i++) pthread_create(&th[i], NULL, t_once, 0); for (int i = 0; i < n; i++) { pthread_join(th[i], &r); logf_("seen%d=%ld;", i, (long)r); } pthread_once(&once, once_fn); logf_("runs=%ld;", once_runs); break;
+  case PG_KEYS_ALL: keys_all = 1; /* fall through */
   case PG_KEYS: pthread_key_create(&key1, dtor); pthread_key_create(&key2, dtor);
     for (long i = 0; i < n; i++) pthread_create(&th[i], NULL, t_keys, (void *)i); for (int i = 0; i < n; i++) { pthread_join(th[i], &r); logf_("k%d=%ld;", i, (long)r); }
     logf_("dtor_calls=%ld;dtor_sum=%ld;main=%ld;", dtor_calls, dtor_sum, (long)pthread_getspecific(key1)); pthread_key_delete(key1); pthread_key_delete(key2); break;
